@@ -1,6 +1,6 @@
 CONSTANTS
   G = 3
-  Ws = {1, 2, 3, 4}
+  Ws = {1, 2, 3}
   D <- DQuick
   Als = {0, 1, 2}
   HasFill = TRUE
